@@ -98,6 +98,11 @@ type acctRecord struct {
 func runC12(b *mon.B) {
 	r := gen.New(uint64(b.Seed), 0xC12, uint64(b.Index))
 	sc := richConfig(r, 1)
+	if b.Index%4 == 3 {
+		// a SPAN scope whose span host is down: records must still be written once
+		sc.Cfg.Secrets[0] = refsrv.AsSpan(sc.Cfg.Secrets[0], refsrv.DeadSpanHost)
+		b.Class("config/span-scope-dead-host")
+	}
 	ref, err := refsrv.Start(sc.Cfg, refsrv.Options{ViaYAML: b.Index%2 == 0, Keys: sc.Keys})
 	if err != nil {
 		b.Inconclusive("configuration did not load: %v", err)
@@ -154,7 +159,21 @@ func runC12(b *mon.B) {
 					}
 					q.Args = append(q.Args, a)
 				}
-				q.Args = append(q.Args, "task_id="+q.ID)
+				// the identifying argument sits first, somewhere in the middle or last, so that
+				// empty arguments also occur at the very end
+				tid := "task_id=" + q.ID
+				switch at := r.Intn(3); {
+				case at == 0 || len(q.Args) == 0:
+					q.Args = append(q.Args, tid)
+				case at == 1:
+					q.Args = append([]string{tid}, q.Args...)
+				default:
+					i := r.Intn(len(q.Args))
+					q.Args = append(q.Args[:i], append([]string{tid}, q.Args[i:]...)...)
+				}
+				if n := len(q.Args); q.Args[n-1] == "" {
+					ca += "+trailing-empty"
+				}
 				q.Ints = [4]int{rfc8907.Methods[r.Intn(len(rfc8907.Methods))], r.Intn(16), r.Intn(7), r.Intn(10)}
 				q.Body = bAcctRequest(q.Flags, q.Ints[0], q.Ints[1], q.Ints[2], q.Ints[3], q.User, q.Port, q.Rem, q.Args...)
 				if r.Chance(1, 25) {
